@@ -88,6 +88,24 @@ def collision_doc(group: list, scope: str) -> dict:
     elif scope == "enum_members":
         S["E"] = {"type": "string", "enum": list(group)}
         S["Holder"] = {"type": "object", "properties": {"e": {"$ref": "#/components/schemas/E"}}}
+    elif scope == "allof_inherited_properties":
+        # each colliding name comes from a different referenced allOf member (plus one inline member)
+        members = []
+        for i, n in enumerate(group):
+            if i == len(group) - 1 and len(group) > 2:
+                members.append({"type": "object", "properties": {n: {"type": "string"}}})
+            else:
+                S[f"Part{i}"] = {"type": "object", "properties": {n: {"type": "string"}}}
+                members.append({"$ref": f"#/components/schemas/Part{i}"})
+        S["Holder"] = {"allOf": members}
+    elif scope == "allof_redeclared_properties":
+        # all colliding names in one parent; a later member re-declares the first one with a narrower kind
+        S["Base"] = {"type": "object", "properties": {n: {"type": "number"} for n in group}}
+        S["Holder"] = {"allOf": [{"$ref": "#/components/schemas/Base"}, {"type": "object", "properties": {group[0]: {"type": "integer"}, "own": {"type": "string"}}}]}
+    elif scope == "operation_ids_multi_tag":
+        # with generate_all_tags: the clash happens in a tag that is not the first tag of the earlier operation
+        for i, n in enumerate(group):
+            d["paths"][f"/p{i}"] = {"get": {"operationId": n, "tags": [f"own{i}", "shared"] if i % 2 == 0 else ["shared"], "responses": ok}}
     elif scope == "schema_vs_inline":
         S[group[0]] = {"type": "object", "properties": {"a": {"type": "string"}}}
         S["Holder"] = {"type": "object", "properties": {"x": {"type": "object", "title": group[1], "properties": {"b": {"type": "integer"}}}}}
@@ -126,9 +144,10 @@ def main() -> int:
             j = run.job(d, want=["manifest", "tree"], cfg={"field_prefix": pre, "literal_enums": ni % 5 == 4})
             info[j["id"]] = ("name", X, slot, pre)
             jobs.append(j)
-    scopes = ["properties", "params_same_location", "params_across_locations", "schemas", "enum_schemas", "operation_ids", "tags", "schema_vs_inline", "enum_members"]
+    scopes = ["properties", "params_same_location", "params_across_locations", "schemas", "enum_schemas", "operation_ids", "tags", "schema_vs_inline", "enum_members",
+              "allof_inherited_properties", "allof_redeclared_properties", "operation_ids_multi_tag"]
     ENUM_GROUPS = [["first", "VALUE_2", "3rd", "last"], ["value_1", "*", "all"], ["VALUE_0", "", "z"], ["a", "VALUE_3", "b", "4th"], ["a-b", "a_b"], ["a", "A"], ["x y", "x_y", "q"], ["VALUE_1", "a", "1"], ["Value 1", "9"], ["ok", "OK", "Ok"]]
-    for k in range(80 if quick else 1200):
+    for k in range(120 if quick else 1800):
         size = r.choice([2, 2, 3, 4])
         group = names.colliding_set(r, size)
         if r.random() < 0.3:
@@ -138,7 +157,7 @@ def main() -> int:
             group = ENUM_GROUPS[(k // len(scopes)) % len(ENUM_GROUPS)]
         if scope in ("schemas", "enum_schemas", "schema_vs_inline") and any(c in n for n in group for c in "/~#%"):
             continue
-        j = run.job(collision_doc(group, scope), want=["manifest", "tree"], cfg={"field_prefix": prefixes[k % len(prefixes)]})
+        j = run.job(collision_doc(group, scope), want=["manifest", "tree"], cfg={"field_prefix": prefixes[k % len(prefixes)], **({"generate_all_tags": True} if scope == "operation_ids_multi_tag" else {})})
         info[j["id"]] = ("collide", tuple(group), scope, prefixes[k % len(prefixes)])
         jobs.append(j)
     rs = run.map(jobs, timeout=300)
@@ -199,7 +218,7 @@ def main() -> int:
                 vd.violation("merged:class_modules", f"classes {cl} are all written to models/{mod}.py", w)
         if kind == "collide":
             group = list(X)
-            if slot == "properties":
+            if slot in ("properties", "allof_inherited_properties", "allof_redeclared_properties"):
                 m = next((m for m in (man.get("models") or {}).values() if m["cls"] == "Holder"), None)
                 if m is None:
                     if not any(g in diag_text for g in group) and "Holder" not in diag_text:
@@ -226,6 +245,14 @@ def main() -> int:
                     vd.violation(f"merged:classes:{slot}", f"schemas {group} share classes {classes}", w)
                 if undiag:
                     vd.violation(f"dropped_without_diagnostic:{slot}", f"schemas {undiag} of {group} produced neither a class nor a diagnostic naming them", w)
+            elif slot == "operation_ids_multi_tag":
+                ev.count("multi_tag_groups")
+                shared = [e for e in man.get("endpoints") or [] if e["tag"] == "shared"]
+                named = sum(1 for i in range(len(group)) if re.search(rf" /p{i}\b", diag_text))
+                if len({e["module"] for e in shared}) < len(shared):
+                    vd.violation("merged:operation_modules", f"operations {group} under tag 'shared' derive modules {[e['module'] for e in shared]}", w)
+                if len(shared) + named < len(group):
+                    vd.violation("dropped_without_diagnostic:operations", f"operations {group}: {len(shared)} generated under the shared tag, {named} diagnosed", w)
             elif slot == "operation_ids":
                 if len(man.get("endpoints") or []) + sum(1 for i in range(len(group)) if re.search(rf" /p{i}\b", diag_text)) < len(group):
                     vd.violation("dropped_without_diagnostic:operations", f"operations {group}: {len(man.get('endpoints') or [])} generated, rest not diagnosed", w)
